@@ -1,0 +1,8 @@
+// SPDX-FileCopyrightText: 2023 The Pion community <https://pion.ly>
+// SPDX-License-Identifier: MIT
+
+//go:build !verif
+
+package rtp
+
+func verifSeqHook(uint16, uint64) {}
